@@ -79,6 +79,8 @@ type fixture struct {
 	rn      *svc.Runner
 	changes []map[string]interface{} // OldValues seen by change listeners
 	deletes []interface{}            // Data seen by delete listeners
+	workers int                      // worker count (default 1)
+	quiet   bool                     // listeners record nothing (concurrent runs)
 }
 
 func decode(text string) interface{} {
@@ -95,6 +97,9 @@ func (f *fixture) open() error {
 	f.db = db
 	s := res.NewService("svc")
 	s.SetWorkerCount(1)
+	if f.workers > 1 {
+		s.SetWorkerCount(f.workers)
+	}
 	var mopt, copt res.Option
 	switch f.cfg.Pkg {
 	case "middleware":
@@ -155,6 +160,9 @@ func (f *fixture) open() error {
 		s.Handle("c.$id", copt)
 	}
 	s.AddListener("m.$id", func(e *res.Event) {
+		if f.quiet {
+			return
+		}
 		switch e.Name {
 		case "change":
 			f.changes = append(f.changes, e.OldValues)
@@ -163,7 +171,7 @@ func (f *fixture) open() error {
 		}
 	})
 	s.AddListener("c.$id", func(e *res.Event) {
-		if e.Name == "delete" {
+		if e.Name == "delete" && !f.quiet {
 			f.deletes = append(f.deletes, e.Data)
 		}
 	})
@@ -609,6 +617,9 @@ func genCase() *rapid.Generator[Case] {
 						st.Vals[key] = "~delete"
 					case !c.Cfg.Typed && rapid.IntRange(0, 5).Draw(t, "null") == 0:
 						st.Vals[key] = "null" // a property stored as JSON null is a present property
+					case !c.Cfg.Typed && rapid.IntRange(0, 2).Draw(t, "mixed") == 0:
+						// the same text as a number, a boolean and a string are different values
+						st.Vals[key] = rapid.SampledFrom([]string{`1`, `"1"`, `true`, `"true"`, `0.5`, `"0.5"`, `2`, `"2"`, `false`, `"false"`}).Draw(t, "mixedv")
 					case key == "n":
 						st.Vals[key] = rapid.SampledFrom(nums).Draw(t, "num")
 					default:
